@@ -20,6 +20,26 @@ func instrCount(fn *ssa.Function) int {
 	return n
 }
 
+// errorGhost: after a call of a function matching an error-ghost directive, ghost := old(ghost) || err != nil.
+func (ex *Exec) errorGhost(st *State, callee *ssa.Function, vals []Term) {
+	if callee == nil || len(vals) == 0 || len(ex.V.specs.errorGhosts) == 0 {
+		return
+	}
+	rs := callee.Signature.Results()
+	if rs.Len() == 0 || typeStr(rs.At(rs.Len()-1).Type()) != "error" {
+		return
+	}
+	name := funcName(callee)
+	for _, eg := range ex.V.specs.errorGhosts {
+		if !matchAny([]string{eg.Pattern}, name) {
+			continue
+		}
+		g := "G:" + eg.Ghost
+		old := ex.get(st, g, SBool)
+		ex.set(st, g, or(old, not(eq(vals[len(vals)-1], Term{"VNil", SVal}))))
+	}
+}
+
 func (ex *Exec) setResult(f *frame, res ssa.Value, vals []Term) {
 	if res == nil {
 		return
@@ -175,6 +195,7 @@ func (ex *Exec) callWith(f *frame, st *State, instr ssa.Instruction, cc *ssa.Cal
 	ex.noRestore = nil
 	rs := ex.freshResults(f, st, sig, hint)
 	ex.setResult(f, res, rs)
+	ex.errorGhost(st, callee, rs)
 	if !isRulio(callee) {
 		ex.errConvention(st, sig, rs)
 	}
@@ -223,6 +244,11 @@ func (ex *Exec) canInline(callee *ssa.Function) bool {
 	}
 	if ex.V.noInline[funcName(callee)] {
 		return false
+	}
+	for _, eg := range ex.V.specs.errorGhosts {
+		if matchAny([]string{eg.Pattern}, funcName(callee)) {
+			return false // its error result feeds a ghost at the call site
+		}
 	}
 	// loops inside inlined code are cut without invariants: allow, the havoc is sound
 	return true
